@@ -309,7 +309,53 @@ def _decode(repo, rep):
               "body (decimal and hexadecimal references such as &#x3c;, "
               "names such as &frac12;)", construct="entity-body-class",
               detail=detail[:200])
+    # the hexadecimal marker may be written x or X (&#X22; is what HTML
+    # allows), and both spellings must reach the hexadecimal branch --
+    # otherwise 'X22' is matched as an entity body and int('X22') fails
+    marker = None
+    if hasattr(er, "pattern"):
+        for op, av in rx.parse(er.pattern, er.flags):
+            if op is rx.C.SUBPATTERN and av[0] == 2:
+                cs = rx.CharSet()
+                for o2, a2 in av[3]:
+                    if o2 in (rx.C.MAX_REPEAT, rx.C.MIN_REPEAT):
+                        for o3, a3 in a2[2]:
+                            if o3 is rx.C.LITERAL:
+                                cs = cs | rx.CharSet([(a3, a3)])
+                            elif o3 is rx.C.IN:
+                                cs = cs | rx.in_set(a3)
+                marker = cs
+    icase = bool(getattr(er, "flags", 0) & 2)
+    rep.check(marker is not None and (icase or (
+        "x" in marker and "X" in marker)), "R06.3",
+        "chameleon.utils.entity_re", "the hexadecimal marker of a "
+        "character reference is accepted in either case (&#x22; and &#X22;)",
+        construct="hex-marker-case", detail=str(marker))
     sub = repo.func("chameleon.utils.substitute_entity")
+    hexb = [n for n in ast.walk(sub.node) if isinstance(n, ast.Compare)
+            and "group(2)" in src(n.left) and any(
+                isinstance(c, ast.Constant) and c.value in ("x", "X")
+                for c in n.comparators + [x for cmp_ in n.comparators
+                                           if isinstance(cmp_, (ast.Tuple,
+                                                                ast.List,
+                                                                ast.Set))
+                                           for x in cmp_.elts])]
+    both = any(".lower()" in src(n.left) or ".upper()" in src(n.left) or any(
+        isinstance(c, (ast.Tuple, ast.List, ast.Set)) and
+        {"x", "X"} <= {e.value for e in c.elts
+                       if isinstance(e, ast.Constant)}
+        for c in n.comparators) for n in hexb)
+    rep.check(bool(hexb) and both, "R06.3", sub.qualname, "both spellings "
+              "of the marker select the hexadecimal conversion",
+              construct="hex-branch-case", where=L.where(sub))
+    # the five names every XML document may use -- lt gt amp quot apos --
+    # are decoded; the HTML 4 table of the standard library has no 'apos'
+    mod = sub.module
+    knows_apos = any(isinstance(n, ast.Constant) and n.value == "apos"
+                     for n in ast.walk(mod.tree))
+    rep.check(knows_apos, "R06.3", sub.qualname, "&apos; (predefined in XML, "
+              "absent from html.entities.name2codepoint) is decoded like "
+              "&quot;", construct="apos", where=L.where(sub))
     t = L.text(sub.node)
     rep.check("return chr(int(ent))" in t and
               "return chr(int('0x' + ent, 16))" in t and
